@@ -243,6 +243,7 @@ type gen struct {
 	exported  []int
 	entryType map[string]bool
 	fields    []string
+	flags     []string
 }
 
 func (g *gen) refuse(pos token.Pos, format string, a ...any) {
@@ -739,6 +740,54 @@ func (c *fctx) access(name string, write bool) {
 	}
 }
 
+// flagSites records, for a composite literal of a shared struct type (Router, Txn, iTree), what
+// each of its bool fields is initialised with: the mode flags (Txn.write) are fixed at creation,
+// so the creation sites ARE the places that decide who may touch the writer lock.
+func (c *fctx) flagSites(lit *ast.CompositeLit) {
+	tv, ok := c.p.info.Types[lit]
+	if !ok || tv.Type == nil {
+		return
+	}
+	T := recvNamed(tv.Type)
+	if T == nil || T.Obj().Pkg() == nil || T.Obj().Pkg().Path() != c.g.l.modpath || !sharedTypes[T.Obj().Name()] {
+		return
+	}
+	st, ok := T.Underlying().(*types.Struct)
+	if !ok {
+		return
+	}
+	for i := 0; i < st.NumFields(); i++ {
+		f := st.Field(i)
+		if !isBool(f.Type()) {
+			continue
+		}
+		kind := "default false"
+		var val ast.Expr
+		for j, el := range lit.Elts {
+			if kv, ok := el.(*ast.KeyValueExpr); ok {
+				if id, ok := kv.Key.(*ast.Ident); ok && id.Name == f.Name() {
+					val = kv.Value
+				}
+			} else if j == i {
+				val = el // positional literal
+			}
+		}
+		if val != nil {
+			switch a := c.constArg(val); {
+			case a == argTrue:
+				kind = "true"
+			case a == argFalse:
+				kind = "false"
+			case a >= 0:
+				kind = "slot " + c.n.slots[a].name
+			default:
+				kind = "expression"
+			}
+		}
+		c.g.flags = append(c.g.flags, fmt.Sprintf("%s.%s.%s := %s in %s", T.Obj().Pkg().Name(), T.Obj().Name(), f.Name(), kind, c.n.name))
+	}
+}
+
 // atomicOp classifies a call into sync/atomic: "", "load", "store" (Store/Add/Swap/And/Or), "cas".
 func atomicOp(fn *types.Func) string {
 	if fn.Pkg() == nil || fn.Pkg().Path() != "sync/atomic" {
@@ -799,6 +848,8 @@ func (c *fctx) exprs(n ast.Node, gd guard) {
 			return false
 		case *ast.CallExpr:
 			c.call(e, gd)
+		case *ast.CompositeLit:
+			c.flagSites(e)
 		case *ast.UnaryExpr:
 			if e.Op == token.ARROW {
 				c.leaf(gd, "ChanOp", 0, e.Pos())
@@ -988,8 +1039,15 @@ func (c *fctx) external(call *ast.CallExpr, fn *types.Func, sel *ast.SelectorExp
 		c.leaf(gd, "Acquire", id, call.Pos())
 		return
 	case "(*sync.Mutex).Unlock", "(*sync.RWMutex).Unlock", "(*sync.RWMutex).RUnlock", "(*sync.Mutex).TryLock", "(*sync.RWMutex).TryLock", "(*sync.RWMutex).TryRLock":
-		if _, ok := c.lockObject(call, sel); !ok {
+		id, ok := c.lockObject(call, sel)
+		if !ok {
 			c.g.refuse(call.Pos(), "%s on a receiver that is neither a struct field nor a package variable", full)
+			return
+		}
+		if strings.Contains(full, "Try") {
+			c.leaf(gd, "Acquire", id, call.Pos()) // does not wait, but takes the lock: counted as an acquisition
+		} else {
+			c.leaf(gd, "Release", id, call.Pos())
 		}
 		return
 	case "(*sync.Cond).Wait":
@@ -1907,8 +1965,8 @@ type hit struct {
 }
 
 func (g *gen) leafName(l leaf) string {
-	if l.kind == "Acquire" {
-		return "Acquire(" + g.locks[l.lock] + ")"
+	if l.kind == "Acquire" || l.kind == "Release" {
+		return l.kind + "(" + g.locks[l.lock] + ")"
 	}
 	return l.kind
 }
@@ -1993,6 +2051,8 @@ func (g *gen) coqLeaf(l leaf) string {
 	switch l.kind {
 	case "Acquire":
 		return fmt.Sprintf("Acquire %d%%N", l.lock)
+	case "Release":
+		return fmt.Sprintf("Release %d%%N", l.lock)
 	default:
 		return l.kind
 	}
@@ -2032,6 +2092,11 @@ func (g *gen) write(out string) error {
 	sb.WriteString("].\n\n(* function ids of the exported methods of the entry types, and of their synthetic result nodes *)\n")
 	for _, id := range g.exported {
 		fmt.Fprintf(&sb, "Definition f_%s : N := %d%%N.\n", coqIdent(g.nodes[id].name), id)
+	}
+	for _, n := range g.nodes { // internals the hand-written files refer to
+		if n.name == "Router.txnWith" || n.name == "Router.getRoot" {
+			fmt.Fprintf(&sb, "Definition f_%s : N := %d%%N.\n", coqIdent(n.name), n.id)
+		}
 	}
 	sb.WriteString("Definition exported_methods : list N := [")
 	for i, id := range g.exported {
@@ -2111,6 +2176,14 @@ func (g *gen) write(out string) error {
 	}
 	sb.WriteString("\n].\n\n(* every struct field / package variable of the analysed packages that is a synchronisation or communication object *)\nDefinition sync_inventory : list string := [\n")
 	for i, k := range g.syncInventory() {
+		if i > 0 {
+			sb.WriteString(";\n")
+		}
+		fmt.Fprintf(&sb, "  %q", k)
+	}
+	sb.WriteString("\n].\n\n(* what the bool fields of Router / Txn / iTree are initialised with, per composite literal *)\nDefinition flag_sites : list string := [\n")
+	sort.Strings(g.flags)
+	for i, k := range g.flags {
 		if i > 0 {
 			sb.WriteString(";\n")
 		}
@@ -2280,7 +2353,7 @@ func main() {
 	}
 	sum := map[string]any{"repo": repo, "packages": pkgs, "functions": len(g.nodes), "edges": nedges, "leaves": nleaves,
 		"locks": g.locks, "address_taken": len(g.addr), "exported_methods": len(g.exported), "result_nodes": len(g.results),
-		"entries": rows, "names": names, "fields": g.fields, "shapes": shapes, "sync_inventory": g.syncInventory(), "shape_rows": shapeRows}
+		"entries": rows, "names": names, "fields": g.fields, "shapes": shapes, "sync_inventory": g.syncInventory(), "shape_rows": shapeRows, "flag_sites": g.flags}
 	if js := args["json"]; js != "" {
 		b, _ := json.MarshalIndent(sum, "", " ")
 		if err := os.WriteFile(js, b, 0o644); err != nil {
